@@ -92,6 +92,31 @@ def law_values(rng, n):
     return out
 
 
+def kind_of(v):
+    import datetime
+    if isinstance(v, bool):
+        return 'bool'
+    if isinstance(v, (int, float, datetime.datetime)):
+        return 'num'
+    return 'txt' if v != '' else 'other'      # (an empty text read from a cell is how the library spells an empty cell)
+
+
+def special_values():
+    """values the random draw would hardly ever pair up: texts beyond a cell's 32767 characters that agree on a long prefix,
+    texts that look like ISO dates next to real dates and the numbers around their serials"""
+    import datetime
+    long_ = 'a' * 32767
+    return [long_, long_ + 'b', long_ + 'c', 'A' * 32767 + 'B', 'a' * 32766, 'a' * 40000,
+            '2021-06-01', '2020-02-29', '1999-12-31', '2021-6-1',
+            datetime.datetime(2022, 1, 1), datetime.datetime(2021, 6, 1), datetime.datetime(2000, 1, 1), datetime.datetime(2021, 6, 1, 12, 0),
+            44348, 44348.5, 44562, 50000, 36525, 0, True, False, 'abc']
+
+
+def short_repr(v):
+    r = repr(v)
+    return r if len(r) <= 60 else r[:40] + f'...<{len(r)} chars>...' + r[-12:]
+
+
 def law_worker(items):
     L = xl.lib()
     F = L.xl.FUNCTIONS
@@ -116,18 +141,18 @@ def law_worker(items):
         try:
             if kind == 'pair':
                 a, b = vals
-                e = {'kind': 'pair', 'via': via, 'a': repr(a), 'b': repr(b),
+                e = {'kind': 'pair', 'via': via, 'a': short_repr(a), 'b': short_repr(b), 'ka': kind_of(a), 'kb': kind_of(b),
                      'lt': tv('OP_LT', a, b, via), 'eq': tv('OP_EQ', a, b, via), 'gt': tv('OP_GT', a, b, via),
                      'le': tv('OP_LE', a, b, via), 'ge': tv('OP_GE', a, b, via), 'ne': tv('OP_NE', a, b, via),
                      'rgt': tv('OP_GT', b, a, via), 'rlt': tv('OP_LT', b, a, via), 'req': tv('OP_EQ', b, a, via)}
             else:
                 a, b, c = vals
-                e = {'kind': 'triple', 'via': via, 'a': repr(a), 'b': repr(b), 'c': repr(c),
+                e = {'kind': 'triple', 'via': via, 'a': short_repr(a), 'b': short_repr(b), 'c': short_repr(c),
                      'ab': tv('OP_LT', a, b, via), 'bc': tv('OP_LT', b, c, via), 'ac': tv('OP_LT', a, c, via)}
         except BaseException as ex:      # noqa
             if isinstance(ex, (KeyboardInterrupt, SystemExit)):
                 raise
-            e = {'kind': 'pair', 'via': via, 'a': repr(vals[0]), 'b': repr(vals[1]), 'lt': False, 'eq': False, 'gt': False,
+            e = {'kind': 'pair', 'via': via, 'a': short_repr(vals[0]), 'b': short_repr(vals[1]), 'lt': False, 'eq': False, 'gt': False,
                  'le': False, 'ge': False, 'ne': False, 'rgt': False, 'rlt': False, 'req': False, 'exc': str(ex)[:120]}
         out.append(e)
     return out
@@ -145,6 +170,14 @@ def law_trace(run, npairs, ntriples):
     for i in range(ntriples):
         pool_ = [v for v in vals if isinstance(v, str)] if rng.random() < 0.5 else [v for v in vals if isinstance(v, (int, float)) and not isinstance(v, bool)]
         items.append(('triple', (rng.choice(pool_), rng.choice(pool_), rng.choice(pool_)), 'wrapped'))
+    # every ordered pair of the special values, both ways of calling; triples mixing texts, dates and numbers
+    sp = special_values()
+    for i, a in enumerate(sp):
+        for j, b in enumerate(sp):
+            items.append(('pair', (a, b), 'wrapped' if (i + j) % 2 else 'formula'))
+    mixed = sp[6:] + [v for v in vals if isinstance(v, str)][:6]
+    for i in range(ntriples // 3):
+        items.append(('triple', (rng.choice(mixed), rng.choice(mixed), rng.choice(mixed)), 'wrapped'))
     events = [e for part in pool.pmap(law_worker, items) for e in part]
     run.evaluations += 9 * len(events)
     trace.validate(run, events, module='Trace_C09Laws', kind='law', name='laws',
